@@ -6,7 +6,7 @@ any other seeded patch that touches src/expand.rs): translate a scratch COPY int
 (module ExScratch.GeneratedExpand), and elaborate a copy of Proofs/C12c.lean in which only the import line
 `import FancyModel.GeneratedExpand` is redirected to it. Nothing under /repo or /verif/lean is written.
 
-usage: rs2lean_expand_sensitivity.py [--work DIR]      (default /tmp/exsens)
+usage: rs2lean_expand_sensitivity.py [--work DIR] [--only SUBSTRING-OF-THE-CASE-NAME]      (default /tmp/exsens)
 """
 import glob, os, re, shutil, subprocess, sys
 
@@ -68,6 +68,19 @@ def mutations(src):
     yield ('(control) check: `Step::GroupNum(num) => on_group_num(num)` moved before the `GroupName` arm (same meaning)',
            once(once(src, '            Step::GroupNum(num) => on_group_num(num),\n            Step::Error => Err(Error::ParseError(', '            Step::Error => Err(Error::ParseError(', 'p1'),
                 '            Step::Char(_) => Ok(()),\n            Step::GroupName(name) => {\n                if regex.named_groups', '            Step::Char(_) => Ok(()),\n            Step::GroupNum(num) => on_group_num(num),\n            Step::GroupName(name) => {\n                if regex.named_groups', 'p2'))
+    # ---- the widened subset
+    yield ('(control) escape: the local `quoted` renamed to `st` (a name the generated code uses itself: renamed apart; same meaning)',
+           once(src, '''            let mut quoted = String::with_capacity(self.sub_char.len_utf8() * 2);
+            quoted.push(self.sub_char);
+            quoted.push(self.sub_char);
+            Cow::Owned(text.replace(self.sub_char, &quoted))''', '''            let mut st = String::with_capacity(self.sub_char.len_utf8() * 2);
+            st.push(self.sub_char);
+            st.push(self.sub_char);
+            Cow::Owned(text.replace(self.sub_char, &st))''', 'w1'))
+    yield ('(n) escape: nothing to do for an empty text is tested with `!text.is_empty()` instead of `text.contains(self.sub_char)`',
+           once(src, '        if text.contains(self.sub_char) {\n            let mut quoted', '        if !text.is_empty() {\n            let mut quoted', 'w2'))
+    yield ('(o) check: `num < regex.captures_len()` -> `num < regex.captures_len().max(1)` (same meaning: there is always group 0) ',
+           once(src, '} else if num < regex.captures_len() {', '} else if num < regex.captures_len().max(1) {', 'w3'))
     yield ('(rejected?) exec: the tail taken with `iter.clone().collect::<String>()`',
            once(src, '                let tail = iter.as_str();\n', '                let tail = &iter.clone().collect::<String>();\n', 'q'))
 
@@ -103,6 +116,8 @@ def main():
             cases.append((name, None))
             continue
         cases.append((name, {'expand.rs': open(os.path.join(d, 'src', 'expand.rs')).read()}))
+    if '--only' in sys.argv:
+        cases = cases[:1] + [x for x in cases[1:] if sys.argv[sys.argv.index('--only') + 1] in x[0]]
     base_gen = None
     rows = []
     for i, (name, files) in enumerate(cases):
